@@ -33,8 +33,12 @@ TopOf(r, x, y, z) == IF z < 0 THEN 0 ELSE IF VoxBit(r, x, y, z) THEN z + 1 ELSE 
 ExactOk(r) == "vbits" \notin DOMAIN r \/
               \A k \in 1..(r.w * r.h) : r.depth[k] = TopOf(r, (k - 1) % r.w, (k - 1) \div r.w, r.d - 1)
 
+(* the screen-to-world matrix of the image size is the documented mapping (centre to the origin, y flipped, the shortest   *)
+(* axis of the region spans -1 .. +1), computed by the recorder from the documentation alone                             *)
+S2W(r) == IF r.s2w_ok THEN {} ELSE {"screen-to-world"}
+
 Fails(r) ==
-  IF ~r.ok THEN {"no-image"} ELSE
+  IF ~r.ok THEN {"no-image"} \cup S2W(r) ELSE S2W(r) \cup
   IF Len(r.depth) # r.w * r.h THEN {"size"} ELSE
      (IF \A k \in 1..Len(r.depth) : DepthOk(r, k) THEN {} ELSE {"depth"})
   \cup (IF \A k \in 1..Len(r.depth) : NormalOk(r, k) THEN {} ELSE {"normal"})
